@@ -6,13 +6,23 @@ package main
 // which lists and slices are values (no aliasing is the specification; C13.no_aliasing_*).
 //
 //   X <t> <ops>   ops: N:<j>:<init>  a:<j>:<v>  A:<j>:<k>  B:<j>:<k>  s:<j>:<i>:<v>  g:<j>:<i>
-//                      T:<j>:<k>  R:<k>:<list>  w:<k>:<i>:<v>  F:<dst>:<src>:<idx>  Z:<j>
+//                      T:<j>:<k>  R:<k>:<list>  w:<k>:<i>:<v>  F:<dst>:<src>:<idx>
+//                      b:<j>:<v> / e:<j>:<i>:<v>   add / set through an ALIAS method of the AnyList interface
+//                                                  (AddLong/SetLong on an IntList, SetInt or SetString(decimal) on a
+//                                                  LongList, SetDouble on a FloatList, SetFloat on a DoubleList when exact)
+//                      Z:<j>:<asc>                 Sorting(asc)  → z<values along the result>; the result is then overwritten
+//                      Y:<j>:<asc>:<k>:<casc>      SortingAnyList(asc, list k, casc) → y<value/child …>
+//                      D:<j>:<k>                   list j .Read(bytes of list k .Write())  — decode into a receiver in any state
+// Every query (Z, Y, F, T, g) is a function of the CURRENT contents: the generator repeats the same
+// query with the same arguments around in-place Sets (memoised results must not survive a mutation).
 //   answer per op: <u|p|v..>#<list0>|…|<list3>|<slice0>|<slice1>|<slice2>
 
 import (
+	"math"
 	"strconv"
 	"strings"
 
+	gio "github.com/whatap/golib/io"
 	"github.com/whatap/golib/util/list"
 	"verif/harness/vh"
 )
@@ -92,15 +102,117 @@ func (p *pool[T, L]) exec(f []string) string {
 		w := *p.lists[0]
 		w.l = l
 		p.lists[atoi(f[1])] = &w
+	case "b", "e":
+		p.alias(f)
+	case "D":
+		out := gio.NewDataOutputX()
+		p.lists[atoi(f[2])].l.Write(out)
+		p.lists[atoi(f[1])].l.Read(gio.NewDataInputX(out.ToByteArray()))
 	case "Z":
-		perm := p.lists[atoi(f[1])].l.Sorting(true)
+		asc := len(f) < 3 || parseBool(f[2])
+		l := p.lists[atoi(f[1])]
+		perm := l.l.Sorting(asc)
+		vs := l.toArr()
+		res := "bad-perm"
+		if isPerm(perm, len(vs)) {
+			parts := make([]string, len(perm))
+			for i, x := range perm {
+				parts[i] = canon(p.t, vs[x])
+			}
+			res = "z" + vh.List(parts)
+		}
 		for i := range perm {
 			perm[i] = 77 // the caller owns the result
 		}
+		if len(f) < 3 {
+			return "u"
+		}
+		return res
+	case "Y":
+		l, c := p.lists[atoi(f[1])], p.lists[atoi(f[3])]
+		perm := l.l.SortingAnyList(parseBool(f[2]), c.l, parseBool(f[4]))
+		vs, cs := l.toArr(), c.toArr()
+		res := "bad-perm"
+		if isPerm(perm, len(vs)) {
+			parts := make([]string, len(perm))
+			for i, x := range perm {
+				cv := "?"
+				if x < len(cs) {
+					cv = canon(p.t, cs[x])
+				}
+				parts[i] = canon(p.t, vs[x]) + "/" + cv
+			}
+			res = "y" + vh.List(parts)
+		}
+		for i := range perm {
+			perm[i] = 77
+		}
+		return res
 	default:
 		panic("bad op " + f[0])
 	}
 	return "u"
+}
+
+// alias: the same element operation through another method of the AnyList interface.
+func (p *pool[T, L]) alias(f []string) {
+	var a list.AnyList = p.lists[atoi(f[1])].l
+	add := f[0] == "b"
+	var v val
+	i := 0
+	if add {
+		v = parseVal(p.t, f[2])
+	} else {
+		i = atoi(f[2])
+		v = parseVal(p.t, f[3])
+	}
+	switch p.t {
+	case 'i':
+		switch {
+		case add:
+			a.AddLong(v.i)
+		case (i+len(f[3]))%2 == 0:
+			a.SetLong(i, v.i)
+		default:
+			a.SetString(i, strconv.FormatInt(v.i, 10))
+		}
+	case 'l':
+		switch {
+		case add:
+			a.AddInt(int(v.i))
+		case (i+len(f[3]))%2 == 0:
+			a.SetInt(i, int(v.i))
+		default:
+			a.SetString(i, strconv.FormatInt(v.i, 10))
+		}
+	case 'f':
+		x := float64(math.Float32frombits(uint32(v.u)))
+		if add {
+			a.AddDouble(x)
+		} else {
+			a.SetDouble(i, x)
+		}
+	case 'd':
+		x := math.Float64frombits(v.u)
+		y := float32(x)
+		exact := float64(y) == x && math.Signbit(float64(y)) == math.Signbit(x)
+		switch {
+		case add && exact:
+			a.AddFloat(y)
+		case add:
+			a.AddDouble(x)
+		case exact:
+			a.SetFloat(i, y)
+		default:
+			a.SetDouble(i, x)
+		}
+	default:
+		if add {
+			a.AddString(v.s)
+		} else {
+			a.SetString(i, v.s)
+		}
+	}
 }
 
 func (p *pool[T, L]) snapshot() string {
@@ -200,7 +312,42 @@ func specX(t byte, ops []string) []string {
 			} else {
 				res = "p"
 			}
+		case "b":
+			j := atoi(f[1])
+			lists[j] = append(cp(lists[j]), parseVal(t, f[2]))
+		case "e":
+			j, i := atoi(f[1]), atoi(f[2])
+			if i < 0 || i >= len(lists[j]) {
+				res = "p"
+			} else {
+				lists[j] = cp(lists[j])
+				lists[j][i] = parseVal(t, f[3])
+			}
+		case "D":
+			j := atoi(f[1])
+			lists[j] = append(cp(lists[j]), cp(lists[atoi(f[2])])...)
 		case "Z":
+			if len(f) >= 3 {
+				vs := lists[atoi(f[1])]
+				perm := refSort(t, parseBool(f[2]), '-', true, vs, nil)
+				parts := make([]string, len(perm))
+				for i, x := range perm {
+					parts[i] = canon(t, vs[x])
+				}
+				res = "z" + vh.List(parts)
+			}
+		case "Y":
+			vs, cs := lists[atoi(f[1])], lists[atoi(f[3])]
+			if len(cs) < len(vs) {
+				res = "child-too-short" // the generator never asks for it
+				break
+			}
+			perm := refSort(t, parseBool(f[2]), t, parseBool(f[4]), vs, cs)
+			parts := make([]string, len(perm))
+			for i, x := range perm {
+				parts[i] = canon(t, vs[x]) + "/" + canon(t, cs[x])
+			}
+			res = "y" + vh.List(parts)
 		}
 		parts := make([]string, 0, nLists+nArrs)
 		for _, l := range lists {
@@ -215,12 +362,13 @@ func specX(t byte, ops []string) []string {
 }
 
 var xOpNames = map[string]string{"N": "New", "a": "Add", "A": "AddAllArray", "B": "AddAll", "s": "Set", "g": "Get",
-	"T": "ToArray", "R": "slice-literal", "w": "slice-write", "F": "Filtering", "Z": "Sorting"}
+	"T": "ToArray", "R": "slice-literal", "w": "slice-write", "F": "Filtering", "Z": "Sorting", "Y": "SortingAnyList",
+	"b": "Add(alias)", "e": "Set(alias)", "D": "Read"}
 
 // xTarget: index (0..6 in snapshot order) of the object an op may change, or -1.
 func xTarget(f []string) int {
 	switch f[0] {
-	case "N", "a", "A", "B", "s", "F":
+	case "N", "a", "A", "B", "s", "F", "b", "e", "D":
 		return atoi(f[1])
 	case "T":
 		return nLists + atoi(f[2])
@@ -319,10 +467,72 @@ func genX(r *vh.Rng) string {
 			if ok {
 				sizes[j] = m
 			}
+		case x < 92:
+			ops = append(ops, "Z:"+strconv.Itoa(j)+":"+b2s(r.Bool()))
 		case x < 94:
-			ops = append(ops, "Z:"+strconv.Itoa(j))
+			if sizes[j2] < sizes[j] {
+				continue
+			}
+			ops = append(ops, "Y:"+strconv.Itoa(j)+":"+b2s(r.Bool())+":"+strconv.Itoa(j2)+":"+b2s(r.Bool()))
 		default:
 			ops = append(ops, "g:"+strconv.Itoa(j)+":"+strconv.Itoa(idxNear(r, sizes[j])))
+		}
+		// the same query before and after an in-place Set at an existing index (and after a decode
+		// into the receiver): a result remembered from before must not come back
+		if sizes[j] > 0 && r.Chance(22) {
+			q := ""
+			switch r.Intn(5) {
+			case 0, 1:
+				q = "Z:" + strconv.Itoa(j) + ":" + b2s(r.Bool())
+			case 2:
+				if sizes[j2] >= sizes[j] {
+					q = "Y:" + strconv.Itoa(j) + ":" + b2s(r.Bool()) + ":" + strconv.Itoa(j2) + ":" + b2s(r.Bool())
+				} else {
+					q = "T:" + strconv.Itoa(j) + ":" + strconv.Itoa(k)
+					alen[k] = sizes[j]
+				}
+			case 3:
+				idx := make([]int, 1+r.Intn(4))
+				for q2 := range idx {
+					idx[q2] = r.Intn(sizes[j])
+				}
+				dst := (j + 1) % nLists
+				q = "F:" + strconv.Itoa(dst) + ":" + strconv.Itoa(j) + ":" + intsStr(idx)
+				sizes[dst] = len(idx)
+			default:
+				q = "g:" + strconv.Itoa(j) + ":" + strconv.Itoa(r.Intn(sizes[j]))
+			}
+			setOp := r.PickStr([]string{"s", "s", "e", "e"})
+			nSets := 1 + r.Intn(2)
+			ops = append(ops, q)
+			for q2 := 0; q2 < nSets; q2++ {
+				ops = append(ops, setOp+":"+strconv.Itoa(j)+":"+strconv.Itoa(r.Intn(sizes[j]))+":"+v())
+			}
+			ops = append(ops, q)
+			if strings.HasPrefix(q, "Y:") && r.Chance(50) { // … and after a Set on the child
+				ops = append(ops, "s:"+strconv.Itoa(j2)+":"+strconv.Itoa(r.Intn(sizes[j2]))+":"+v(), q)
+			}
+		}
+		// decode into a receiver in whatever state it is in, twice in a row now and then
+		if r.Chance(10) && sizes[j]+2*sizes[j2] <= 200 {
+			ops = append(ops, "D:"+strconv.Itoa(j)+":"+strconv.Itoa(j2))
+			if j == j2 {
+				sizes[j] *= 2
+			} else {
+				sizes[j] += sizes[j2]
+			}
+			if r.Chance(40) && sizes[j]+sizes[j2] <= 200 {
+				ops = append(ops, "D:"+strconv.Itoa(j)+":"+strconv.Itoa(j2))
+				if j == j2 {
+					sizes[j] *= 2
+				} else {
+					sizes[j] += sizes[j2]
+				}
+			}
+		}
+		if r.Chance(8) {
+			ops = append(ops, "b:"+strconv.Itoa(j)+":"+v())
+			sizes[j]++
 		}
 	}
 	return "X " + string(t) + " " + strings.Join(ops, ";")
